@@ -934,6 +934,9 @@ class BaseModel(ModelInterface):
             if ix is not None:
                 # we need to explicitly pass `on` to preserve order of index levels
                 # and to explicitly pass columns to preserve 2D columns when they are
+                # a repeated (ID, TIME) request is estimated several times: keep one copy of it,
+                # otherwise the join below would multiply the corresponding rows
+                estimations = estimations[~estimations.index.duplicated()]
                 empty_df_like_ests = pd.DataFrame(
                     [], index=ix, columns=estimations.columns
                 )
